@@ -19,6 +19,9 @@ Judge(e) ==
        Chk("c09.negate", Norm(e.neg) = Neg(a))
   \cup (IF e.incdom = 1 THEN Chk("c09.increment", Norm(e.inc) = Inc(a)) ELSE {})
   \cup Chk("c09.matedistance", e.md = MateDistance(a))
+  \* taking the ply away again (DecrementMateDistance, the inverse used to shift search windows)
+  \cup Chk("c09.decrement", Norm(e.dec) = Dec(a))
+  \cup (IF e.incdom = 1 THEN Chk("c09.increment-then-decrement", Norm(e.incdec) = a) ELSE {})
   \cup Chk("c09.less", \A i \in 1..n : (e.less[i] = 1) = Less(a, Norm(e.bs[i])))
   \cup Chk("c09.greater", \A i \in 1..n : (e.greater[i] = 1) = Less(Norm(e.bs[i]), a))
   \cup Chk("c09.max", \A i \in 1..n : Norm(e.max[i]) = Max(a, Norm(e.bs[i])))
